@@ -91,7 +91,13 @@ def rule_sinks(ck: Check, repo: Repo, cg: CallGraph, ot: OrderTaint) -> None:
     ck.extra["reachable_functions"] = len(reach)
     if len(reach) < 80:
         raise AnalysisError(f"reach set of lint/spdx too small: {len(reach)}")
-    sinks = ot.sinks(sorted(reach))
+    scope = sorted(reach)
+    if ck.tier == "thorough":
+        # every function of the package except those only reachable from the writing commands (annotate: C10; download, convert-dep5)
+        others = cg.reachable([MAIN] + [repo.qualname_of(cmds[c]) for c in ("annotate", "download", "convert-dep5")])
+        scope = sorted(set(reach) | (set(repo.functions) - set(others)))
+    ck.extra["functions_in_scope"] = len(scope)
+    sinks = ot.sinks(scope)
     n_iter = len(ot.set_iterations)
     r.count(n_iter, prefix="unordered-iteration")
     ck.extra["unordered_iterations"] = [f"{q} {repo.loc(n)}: {ast.unparse(n.iter)[:40]} <- {s}" for q, n, s in ot.set_iterations]
